@@ -10,32 +10,14 @@ open Irismod Irismod.Oracle Irismod.Spec.C17 Irismod.Proofs.Oracle
 
 /-! ### 1. the aggregates (exact decimals) -/
 
-/-- the full statement: the registered aggregate functions return the specified aggregate on every
-non-empty input -/
+/-- the registered aggregate functions return the specified aggregate on every non-empty input -/
 def AggregatesCorrect : Prop :=
   ∀ (S : Nat) (fn : String) (xs : List Int), xs ≠ [] → knownAgg fn = true →
     aggregate S fn xs = specAggregate S fn xs
 
-/-- `Max` returns 0 where the maximum of an all-negative input is meant (finding F-ora-1) -/
-theorem max_all_negative_is_zero :
-    litMax [-300000000, -500000000] = 0 ∧ specMax [-300000000, -500000000] = some (-300000000) := by
-  constructor <;> decide
-
-/-- **negation by witness**: `Max([-3, -5])` is rendered `0.00000000`, the specification says `-3.00000000` -/
-theorem aggregates_not_correct : ¬ AggregatesCorrect := by
-  intro h
-  have := h 8 "max" [-300000000, -500000000] (by simp) (by decide)
-  have h1 : roundHalfEven (0 * 100000000) (pow10 8) ≠ roundHalfEven (-300000000 * 100000000) (pow10 8) := by decide
-  simp only [aggregate, specAggregate, max_all_negative_is_zero.1, max_all_negative_is_zero.2, fmtRat,
-    List.length_cons, List.length_nil, Option.map] at this
-  revert this
-  decide
-
-/-- **partial theorem**: outside the class of F-ora-1 (`max` over inputs without a non-negative
-value) the registered functions return exactly the specified aggregate -/
-theorem aggregates_correct_partial (S : Nat) (fn : String) (xs : List Int) (hne : xs ≠ [])
-    (_hfn : knownAgg fn = true) (hclass : fn = "max" → hasNonneg xs = true) :
-    aggregate S fn xs = specAggregate S fn xs := by
+/-- **full statement** (holds since the repair of F-ora-1) -/
+theorem aggregates_correct : AggregatesCorrect := by
+  intro S fn xs hne _
   have hl : xs.length ≠ 0 := by
     cases xs with
     | nil => exact absurd rfl hne
@@ -44,7 +26,7 @@ theorem aggregates_correct_partial (S : Nat) (fn : String) (xs : List Int) (hne 
   simp only [hl, if_false]
   by_cases h1 : fn = "max"
   · simp only [h1, if_true]
-    rw [litMax_of_nonneg xs (hclass h1)]; rfl
+    rw [litMax_eq xs hne]; rfl
   · simp only [h1, if_false]
     by_cases h2 : fn = "min"
     · simp only [h2, if_true, litMin_eq]
@@ -53,9 +35,12 @@ theorem aggregates_correct_partial (S : Nat) (fn : String) (xs : List Int) (hne 
       | cons a t => simp [specMin]
     · simp only [h2, if_false]
 
-/-- `max` is right whenever some input is non-negative … -/
-theorem max_correct_of_nonneg (xs : List Int) (h : hasNonneg xs = true) : specMax xs = some (litMax xs) :=
-  litMax_of_nonneg xs h
+/-- regression of F-ora-1: `Max([-3, -5])` is `-3`, not the untouched accumulator -/
+theorem max_all_negative_regression :
+    litMax [-300000000, -500000000] = -300000000 ∧ specMax [-300000000, -500000000] = some (-300000000) := by
+  constructor <;> decide
+
+theorem max_correct (xs : List Int) (h : xs ≠ []) : specMax xs = some (litMax xs) := litMax_eq xs h
 
 /-- … `min` on every non-empty input (its `math.MaxFloat64` start is above every value) -/
 theorem min_correct (xs : List Int) : litMin xs = specMin xs := litMin_eq xs
@@ -151,12 +136,11 @@ theorem done_appends (s : State) (n : Name) (b thr : Nat) (outs : List String) (
     unfold viewOf
     rw [valuesOf_set_other _ _ _ _ (Ne.symm hm)]
 
-/-- the value stored is the *specified* aggregate unless the batch is in the class of F-ora-1 -/
-theorem done_value_is_spec (fn : String) (outs : List String) (hl : outs ≠ []) (hfn : knownAgg fn = true)
-    (hclass : fn = "max" → hasNonneg ((outs.map extract).map (toUnits (maxScale (outs.map extract)))) = true) :
+/-- the value stored is the *specified* aggregate -/
+theorem done_value_is_spec (fn : String) (outs : List String) (hl : outs ≠ []) (hfn : knownAgg fn = true) :
     aggregateSpecs fn outs = specAggregateSpecs fn outs := by
   unfold aggregateSpecs specAggregateSpecs
-  apply aggregates_correct_partial _ _ _ _ hfn hclass
+  apply aggregates_correct _ _ _ _ hfn
   cases outs with
   | nil => exact absurd rfl hl
   | cons a t => simp
